@@ -34,6 +34,20 @@ def snapshot(root):
                 snap[rel] = ('f', stat.S_IMODE(st.st_mode), open(p, "rb").read())
     return snap
 
+def follow_links(root, snap):
+    """a destination that is a symbolic link to a regular file counts as that file (what a reader of the path sees)"""
+    out = dict(snap)
+    for rel, v in snap.items():
+        if v[0] == 'l':
+            t = v[1] if os.path.isabs(v[1]) else os.path.join(os.path.dirname(os.path.join(root, rel)), v[1])
+            try:
+                st = os.stat(t)
+                if stat.S_ISREG(st.st_mode):
+                    out[rel] = ('f', stat.S_IMODE(st.st_mode), open(t, "rb").read())
+            except OSError:
+                pass
+    return out
+
 def short(v):
     if v is None:
         return "absent"
@@ -90,12 +104,23 @@ def prior_states(tree):
         "older-partial": del_one,
         "identical-other-mode": samemode,
         "older-readonly-mode": {k: (0o444, b"x" + v) for k, v in tree.items()},
+        # every destination is a symbolic link to a regular file holding the older content (a dotfiles-managed skill)
+        "older-symlinked": {k: (0o644, b"LINKED " + v[: len(v) // 3]) for k, v in tree.items()},
     }
 
-def lay_down(skill_dir, files, extra=None):
+SYMLINKED = ("older-symlinked",)
+
+def lay_down(skill_dir, files, extra=None, symlink=False):
     for rel, (mode, data) in files.items():
         p = os.path.join(skill_dir, rel)
         os.makedirs(os.path.dirname(p), exist_ok=True)
+        if symlink:
+            tgt = os.path.join(os.path.dirname(skill_dir), ".link-targets", rel)
+            os.makedirs(os.path.dirname(tgt), exist_ok=True)
+            open(tgt, "wb").write(data)
+            os.chmod(tgt, mode)
+            os.symlink(tgt, p)
+            continue
         open(p, "wb").write(data)
         os.chmod(p, mode)
     for rel, data in (extra or {}).items():
